@@ -4,7 +4,9 @@
 //
 // subchecks: roundtrip (freshly drawn images, incl. pixel content with repeated / nearly repeated rows), derived (images
 // produced by copy/move assignment or construction, set_channel_width, set_has_alpha, mirroring - "saving ANY image"),
-// variant (every supported input container variant), each with optional truncation of the files.
+// large (sampled images beyond the enumerated 1..64 scope, up to 256 per side, mostly incompressible content, sizes next to
+// multiples of 32 KiB), variant (every supported input container variant; the LOADED image is an image too: it is compared
+// with an identically constructed one and goes through the save-side oracle), each with optional truncation of the files.
 //
 // Engine note: DESIGN.md plans Hypothesis + Python codecs + a serve shim. The same oracle is
 // implemented here in C++ (harness/c06/codecs.hh: encoders and decoders written from the format
@@ -37,8 +39,8 @@ static const char* fmt_name(phosg::Image::Format f) {
 
 // Loads the memfile's current contents, with allocation accounting. A discrepancy is only
 // reported when it repeats (the first call of a libc facility may allocate once).
-static Loaded load_checked(int via, const std::string& what) {
-  Loaded r = load_current(memfile(), via);
+static Loaded load_checked(int via, const std::string& what, const phosg::Image* same_as = nullptr) {
+  Loaded r = load_current(memfile(), via, same_as);
   bool bad = r.ok ? (r.held_after_load != r.expected_held || r.held_after_destroy != 0) : (r.held_after_load != 0);
   if (bad && __sanitizer_get_current_allocated_bytes) {
     Loaded r2 = load_current(memfile(), via);
@@ -105,18 +107,18 @@ static std::string save_via(const phosg::Image& img, phosg::Image::Format f, int
   return mf.contents();
 }
 
-static void check_saved(const phosg::Image& img, const Pix& pix, int via, int save_how, bool trunc, size_t small_limit, const std::string& tag);
+static void check_saved(const phosg::Image& img, const Pix& pix, int via, int save_how, bool trunc, size_t small_limit, const std::string& tag, uint64_t expect_maxval = 0);
 
 // ---------------------------------------------------------------- roundtrip
 // n = [w, h, alpha, cw, style, seed, flags]; flags: bit0 truncate saved files, bits1-2 load entry point, bits3-4 save entry point
-static void run_roundtrip(const Case& c) {
+static void run_roundtrip_upto(const Case& c, size_t max_side) {
   size_t w = c.u(0), h = c.u(1);
   bool alpha = c.u(2) != 0;
   unsigned cw = c.u(3);
   unsigned style = c.u(4);
   uint64_t seed = c.u(5);
   uint64_t flags = c.u(6);
-  if (w < 1 || w > 64 || h < 1 || h > 64 || (cw != 8 && cw != 16 && cw != 32 && cw != 64)) throw std::logic_error("roundtrip: case outside the domain");
+  if (w < 1 || w > max_side || h < 1 || h > max_side || (cw != 8 && cw != 16 && cw != 32 && cw != 64)) throw std::logic_error("roundtrip: case outside the domain");
   int via = (flags >> 1) & 3;
   if (via == 3) via = 0;
   int save_how = (flags >> 3) & 3;
@@ -130,20 +132,34 @@ static void run_roundtrip(const Case& c) {
     VCHECK(back.same_pixels(pix), "setup:write_pixel-then-raw-buffer", "image built with write_pixel does not hold the pixels: ", back.first_difference(pix));
   }
   if ((w % 4) || alpha || cw > 8) ctx().nontrivial_case();
-  ctx().cls(cat("roundtrip:cw", cw, alpha ? ":alpha" : ":opaque"));
-  ctx().cls(cat("roundtrip:pixel-style-", style % 8));
+  const char* sc = max_side > 64 ? "large" : "roundtrip";
+  ctx().cls(cat(sc, ":cw", cw, alpha ? ":alpha" : ":opaque"));
+  ctx().cls(cat(sc, ":pixel-style-", style % 8));
+  if (max_side > 64) {
+    // distance of the scanline data size h*(1+w*channels) (what a PNG encoder hands to deflate) from a multiple of 32 KiB
+    size_t raw = h * (1 + w * (alpha ? 4 : 3)), d = raw % 32768;
+    if (d > 16384) d = 32768 - d;
+    ctx().cls(raw < 32768 - 512 ? "large:scanline-data<32K" : d <= 512 ? "large:scanline-data-within-512-of-k*32K" : "large:scanline-data-elsewhere");
+  }
   std::string tag = cat(w, "x", h, alpha ? " alpha" : "", " cw=", cw);
   check_saved(img, pix, via, save_how, trunc, small_limit, tag);
 }
+static void run_roundtrip(const Case& c) { run_roundtrip_upto(c, 64); }
+static void run_large(const Case& c) { run_roundtrip_upto(c, 256); }
 
 // The save-side oracle for one image `img` that holds the pixels `pix`: PPM and BMP save->load identity, PPM/BMP/PNG bytes
 // read back by the independent decoders, save overloads byte-identical, wide-channel BMP/PNG and grayscale saves throw,
 // optionally every (listed) prefix of the saved files.
-static void check_saved(const phosg::Image& img, const Pix& pix, int via, int save_how, bool trunc, size_t small_limit, const std::string& tag) {
+// expect_maxval: the sample range of the image (0 = the full range of the channel width, which is what every constructed image has;
+// an image loaded from a Netpbm file keeps the file's MAXVAL). The saved PPM must declare exactly that range - a larger one would
+// change the sample width of the file, a smaller one would make samples exceed it.
+static void check_saved(const phosg::Image& img, const Pix& pix, int via, int save_how, bool trunc, size_t small_limit, const std::string& tag, uint64_t expect_maxval) {
   size_t w = pix.w, h = pix.h;
   bool alpha = pix.alpha;
   unsigned cw = pix.cw;
   MemFile& mf = memfile();
+  if (!expect_maxval) expect_maxval = mask_of(cw);
+  bool full_range = expect_maxval == mask_of(cw);
 
   // --- colour PPM (P6 / P7 RGB_ALPHA), any channel width
   {
@@ -158,15 +174,16 @@ static void check_saved(const phosg::Image& img, const Pix& pix, int via, int sa
     } catch (const DecodeError& e) {
       VFAIL("ppm-invalid", "independent P6/P7 reader rejects the saved file of ", tag, ": ", e.what());
     }
-    VCHECK(info.pix.w == w && info.pix.h == h && info.pix.alpha == alpha && info.maxval == mask_of(cw), "ppm-header",
-        "saved PPM header of ", tag, " says ", info.pix.w, "x", info.pix.h, " alpha=", info.pix.alpha, " maxval=", info.maxval);
+    VCHECK(info.pix.w == w && info.pix.h == h && info.pix.alpha == alpha && info.maxval == expect_maxval, "ppm-header",
+        "saved PPM header of ", tag, " says ", info.pix.w, "x", info.pix.h, " alpha=", info.pix.alpha, " maxval=", info.maxval, ", the image's sample range is ", expect_maxval);
     if (cw == 8) {
       VCHECK(info.samples_decoded && info.pix.same_pixels(pix), "ppm-pixels", "independent reader of the saved 8-bit PPM of ", tag, ": ", info.pix.first_difference(pix));
     }
     mf.set(bytes.data(), bytes.size());
-    Loaded r = load_checked(via, "saved PPM of " + tag);
+    Loaded r = load_checked(via, "saved PPM of " + tag, &img);
     VCHECK(r.ok, "ppm-roundtrip:load-throws", "loading the saved PPM of ", tag, " threw ", r.exc_type, ": ", r.exc_what);
     VCHECK(r.pix.same_pixels(pix), cat("ppm-roundtrip:cw", cw), "save(COLOR_PPM)->load of ", tag, ": ", r.pix.first_difference(pix));
+    VCHECK(r.equal == 1 && r.equal_rev == 1, "ppm-roundtrip:operator==", "save(COLOR_PPM)->load of ", tag, ": same geometry and samples, but operator==/operator!= say the reloaded image differs from the saved one");
     if (trunc) {
       FileSpec fs;
       fs.bytes = bytes;
@@ -191,6 +208,12 @@ static void check_saved(const phosg::Image& img, const Pix& pix, int via, int sa
       VCHECK(threw, cat("wide-save-not-rejected:", fmt_name(f)), "saving ", tag, " as ", fmt_name(f), " did not throw runtime_error");
       continue;
     }
+    if (!full_range) {
+      // 8-bit samples with a declared range below 255 (loaded from a Netpbm file with a smaller MAXVAL): BMP and PNG have no way
+      // to say so, and whether such an image is rescaled on export is left open by the statement
+      ctx().cls("bmp/png-skipped:sample-range-below-255");
+      continue;
+    }
     VCHECK(!threw, cat("save-throws:", fmt_name(f)), "saving ", tag, " as ", fmt_name(f), " threw: ", exc);
     if (save_how) {
       VCHECK(bytes == img.save(f), cat("save-overloads-differ:", fmt_name(f)), "save() to a string and save() to a file produce different bytes for ", tag);
@@ -204,9 +227,10 @@ static void check_saved(const phosg::Image& img, const Pix& pix, int via, int sa
     VCHECK(dec.same_pixels(pix), cat(fmt_name(f), "-pixels"), "independent decoder of the saved ", fmt_name(f), " of ", tag, ": ", dec.first_difference(pix));
     if (f == phosg::Image::Format::WINDOWS_BITMAP) {
       mf.set(bytes.data(), bytes.size());
-      Loaded r = load_checked(via, "saved BMP of " + tag);
+      Loaded r = load_checked(via, "saved BMP of " + tag, &img);
       VCHECK(r.ok, "bmp-roundtrip:load-throws", "loading the saved BMP of ", tag, " threw ", r.exc_type, ": ", r.exc_what);
       VCHECK(r.pix.same_pixels(pix), "bmp-roundtrip", "save(WINDOWS_BITMAP)->load of ", tag, ": ", r.pix.first_difference(pix));
+      VCHECK(r.equal == 1 && r.equal_rev == 1, "bmp-roundtrip:operator==", "save(WINDOWS_BITMAP)->load of ", tag, ": same geometry and samples, but operator==/operator!= say the reloaded image differs from the saved one");
       if (trunc) {
         FileSpec fs;
         fs.bytes = bytes;
@@ -271,6 +295,48 @@ static void enum_roundtrip(Enum& e) {
   e.complete(cat("all widths 1..64 x heights {", heights.size(), " values} x alpha x channel width 8/16/32/64: save as PPM/BMP/PNG, independent decode, reload"));
 }
 
+// ---------------------------------------------------------------- large
+// The statement says "saving ANY image"; 1..64 is the scope that is enumerated. This class samples beyond it: up to 256 per side,
+// mostly incompressible content (what makes an encoder's output as long as its input), every alpha / channel-width combination
+// (BMP and PNG apply to 8-bit channels only, so most cases have those), and - because encoders stream the raster through
+// fixed-size windows and buffers - sizes whose raster / scanline data lands next to a multiple of 32 KiB (deflate window 32 KiB,
+// stored-block limit 64 KiB - 1, common stdio / stack buffer sizes).
+static Case gen_large() {
+  Case c;
+  bool alpha = vg::coin();
+  unsigned cw = vg::pick<unsigned>({8, 8, 8, 8, 8, 8, 8, 16, 32, 64});
+  size_t w, h;
+  switch (vg::below(5)) {
+    case 0:
+      w = vg::range(65, 256), h = vg::range(65, 256);
+      break;
+    case 1:
+      w = vg::range(65, 160), h = vg::range(65, 160);
+      break;
+    case 2: // one side inside the enumerated scope
+      w = vg::range(1, 64), h = vg::range(65, 256);
+      if (vg::coin()) std::swap(w, h);
+      break;
+    default: {
+      // height chosen so that height * (1 + width * channels) is as close as the row length allows to k * 32 KiB + delta
+      w = vg::range(65, 256);
+      size_t stride = 1 + w * (alpha ? 4 : 3);
+      size_t kmax = 256 * stride / 32768; // >= 1 for every width >= 65
+      size_t k = vg::range(1, kmax);
+      long target = static_cast<long>(k * 32768) + vg::range(-300, 300);
+      h = static_cast<size_t>((target + static_cast<long>(stride / 2)) / static_cast<long>(stride));
+      if (h < 1) h = 1;
+      if (h > 256) h = 256;
+    }
+  }
+  unsigned style = vg::pick<unsigned>({0, 0, 0, 0, 0, 0, 4, 1, 5, 6});
+  uint64_t flags = vg::chance(1, 40) ? 1 : 0;
+  flags |= vg::below(3) << 1;
+  flags |= vg::below(4) << 3;
+  c.N(w).N(h).N(alpha).N(cw).N(style).N(vg::u64()).N(flags);
+  return c;
+}
+
 // ---------------------------------------------------------------- derived
 // "Saving ANY image": images that came to be through copy/move construction or assignment (into a live image of another
 // size / alpha flag / channel width, or into a default-constructed one), set_channel_width, set_has_alpha or a mirror
@@ -301,7 +367,7 @@ static void run_derived(const Case& c) {
   unsigned style = c.u(4);
   uint64_t seed = c.u(5);
   uint64_t flags = c.u(6);
-  if (w < 1 || w > 64 || h < 1 || h > 64 || !valid_cw(cw) || c.n.size() < 12 || (c.n.size() - 7) % 5 || c.n.size() > 7 + 5 * 4) throw std::logic_error("derived: case outside the domain");
+  if (w < 1 || w > 256 || h < 1 || h > 256 || !valid_cw(cw) || c.n.size() < 12 || (c.n.size() - 7) % 5 || c.n.size() > 7 + 5 * 4) throw std::logic_error("derived: case outside the domain");
   int via = (flags >> 1) & 3;
   if (via == 3) via = 0;
   int save_how = (flags >> 3) & 3;
@@ -348,8 +414,9 @@ static void run_derived(const Case& c) {
     }
   }
   Pix pix = from_image(*cur);
-  if (pix.w < 1 || pix.w > 64 || pix.h < 1 || pix.h > 64) throw std::logic_error("derived: the operations left an image outside the domain");
+  if (pix.w < 1 || pix.w > 256 || pix.h < 1 || pix.h > 256) throw std::logic_error("derived: the operations left an image outside the domain");
   ctx().nontrivial_case();
+  if (pix.w > 64 || pix.h > 64) ctx().cls("derived:larger-than-64");
   ctx().cls(cat("derived:cw", pix.cw, pix.alpha ? ":alpha" : ":opaque"));
   check_saved(*cur, pix, via, save_how, trunc, small_limit, tag);
 }
@@ -361,11 +428,16 @@ static Case gen_derived() {
   size_t w = vg::chance(1, 2) ? vg::range(1, 9) : vg::range(1, 64);
   size_t h = vg::chance(1, 2) ? vg::range(1, 9) : vg::range(1, 64);
   unsigned cw = vg::pick<unsigned>({8, 8, 16, 32, 64});
+  bool large = vg::chance(1, 10); // beyond the enumerated scope (see `large`), mostly 8-bit noise
+  if (large) {
+    w = vg::range(65, 200), h = vg::range(65, 200);
+    cw = vg::pick<unsigned>({8, 8, 8, 8, 16, 64});
+  }
   size_t approx = w * h * 4 * 8;
-  uint64_t flags = (approx <= 2000 ? vg::chance(1, 3) : vg::chance(1, 20)) ? 1 : 0;
+  uint64_t flags = (approx <= 2000 ? vg::chance(1, 3) : large ? false : vg::chance(1, 20)) ? 1 : 0;
   flags |= vg::below(3) << 1;
   flags |= vg::below(4) << 3;
-  c.N(w).N(h).N(vg::coin()).N(cw).N(vg::pick<unsigned>({0, 0, 1, 4, 5, 6, 7})).N(vg::u64()).N(flags);
+  c.N(w).N(h).N(vg::coin()).N(cw).N(large ? vg::pick<unsigned>({0, 0, 0, 4}) : vg::pick<unsigned>({0, 0, 1, 4, 5, 6, 7})).N(vg::u64()).N(flags);
   size_t nops = 1 + vg::below(3);
   for (size_t k = 0; k < nops; k++) {
     uint64_t op = vg::pick<uint64_t>({OP_COPY_ASSIGN_LIVE, OP_COPY_ASSIGN_LIVE, OP_MOVE_ASSIGN_LIVE, OP_MOVE_ASSIGN_LIVE, OP_COPY_CONSTRUCT, OP_MOVE_CONSTRUCT,
@@ -409,7 +481,48 @@ static void enum_derived(Enum& e) {
 }
 
 // ---------------------------------------------------------------- input variants
-// n = [variant, vp, w, h, style, seed, flags]; flags: bit0 truncation, bits1-2 load entry point
+// n = [variant, vp, w, h, style, seed, flags]; flags: bit0 truncation, bits1-2 load entry point, bits3-4 save entry point (for the loaded image)
+
+// an image with the given geometry, sample range and samples, built without the loader: sized constructor + write_pixel when the
+// range is the full one of the channel width, else the raw-data constructor with its explicit max_value argument
+static phosg::Image construct_image(const Pix& p, uint64_t maxval) {
+  if (maxval == mask_of(p.cw)) return to_image(p);
+  std::string raw;
+  size_t nc = p.alpha ? 4 : 3;
+  raw.reserve(p.w * p.h * nc * (p.cw / 8));
+  for (size_t i = 0; i < p.w * p.h; i++) {
+    for (size_t ch = 0; ch < nc; ch++) put_le(raw, p.v[i * 4 + ch], p.cw / 8); // host order, like from_image
+  }
+  MemFile& mf = memfile();
+  mf.set(raw.data(), raw.size());
+  FILE* f = mf.open_read();
+  try {
+    phosg::Image img(f, p.w, p.h, p.alpha, p.cw, maxval);
+    fclose(f);
+    return img;
+  } catch (...) {
+    fclose(f);
+    throw;
+  }
+}
+
+static std::unique_ptr<phosg::Image> load_plain(int via) {
+  MemFile& mf = memfile();
+  if (via == 0) {
+    FILE* f = mf.open_read();
+    try {
+      std::unique_ptr<phosg::Image> r(new phosg::Image(f));
+      fclose(f);
+      return r;
+    } catch (...) {
+      fclose(f);
+      throw;
+    }
+  }
+  if (via == 1) return std::unique_ptr<phosg::Image>(new phosg::Image(mf.path().c_str()));
+  return std::unique_ptr<phosg::Image>(new phosg::Image(mf.path()));
+}
+
 static void run_variant(const Case& c) {
   int variant = c.u(0);
   uint64_t vp = c.u(1);
@@ -440,6 +553,26 @@ static void run_variant(const Case& c) {
     VCHECK(r.pix.same_pixels(fs.expect) || r.pix.same_pixels(fs.expect_swapped), cat("variant-pixels:", variant_name(variant)),
         tag, ": matches the stored samples in neither byte order; against host order: ", r.pix.first_difference(fs.expect));
   }
+  // The loaded image is an image like any other ("saving ANY image"): it equals an image constructed with the same geometry,
+  // sample range (the MAXVAL the file declares; 255 for a bitmap) and samples, and it saves and reloads like a freshly drawn one.
+  {
+    std::unique_ptr<phosg::Image> loaded = load_plain(via);
+    {
+      Pix again = from_image(*loaded);
+      VCHECK(again.same_pixels(r.pix), "variant-load-not-repeatable", tag, ": loading the same file twice gives different images: ", again.first_difference(r.pix));
+    }
+    phosg::Image ref = construct_image(r.pix, fs.maxval);
+    {
+      Pix rp = from_image(ref);
+      VCHECK(rp.same_pixels(r.pix), "setup:constructed-reference", "the constructed reference image does not hold the pixels: ", rp.first_difference(r.pix));
+    }
+    int save_how = (flags >> 3) & 3;
+    check_saved(*loaded, r.pix, via, save_how, false, small_limit, cat("the image loaded from ", tag), fs.maxval);
+    bool eq = (*loaded == ref) && !(*loaded != ref) && (ref == *loaded) && !(ref != *loaded);
+    VCHECK(eq, cat("variant-equality:", variant_name(variant)), "the image loaded from ", tag, " has the geometry, alpha flag, channel width and samples of an image constructed with them (sample range ", fs.maxval,
+        "), but operator==/operator!= say they differ");
+    ctx().cls(fs.maxval == mask_of(r.pix.cw) ? "variant:loaded-image-saved:full-range" : "variant:loaded-image-saved:other-maxval");
+  }
   if (flags & 1) {
     check_prefixes(fs.bytes, prefix_lengths(fs, small_limit), r.pix, via, tag);
     lsan_check(tag);
@@ -456,6 +589,7 @@ static Case gen_variant() {
   uint64_t seed = vg::u64();
   uint64_t flags = (w * h <= 80 ? vg::chance(1, 2) : vg::chance(1, 10)) ? 1 : 0;
   flags |= vg::below(3) << 1;
+  flags |= vg::below(4) << 3;
   c.N(variant).N(vp).N(w).N(h).N(style).N(seed).N(flags);
   return c;
 }
@@ -470,7 +604,7 @@ static void enum_variant(Enum& e) {
       idx++;
       if (!e.mine(idx)) continue;
       size_t w = 1 + (vp % 7), h = 1 + ((vp / 7) % 3);
-      e.exec(Case(e.sc.name).N(v).N(vp).N(w).N(h).N(vp % 5).N(vp + 11).N((vp % 3) << 1));
+      e.exec(Case(e.sc.name).N(v).N(vp).N(w).N(h).N(vp % 5).N(vp + 11).N(((vp % 3) << 1) | (((vp / 3) % 4) << 3)));
     }
   }
   // B: truncation at every prefix for widths of every residue mod 4, a spread of sub-variants
@@ -513,6 +647,15 @@ int main(int argc, char** argv) {
     s.enumerate = enum_roundtrip;
     s.quick_cases = 1200;
     s.thorough_cases = 40000;
+    checks.push_back(s);
+  }
+  {
+    SubCheck s;
+    s.name = "large";
+    s.run = run_large;
+    s.gen = gen_large;
+    s.quick_cases = 360;
+    s.thorough_cases = 8000;
     checks.push_back(s);
   }
   {
